@@ -6,7 +6,9 @@ EXTENDS LfsConn, Json, IOUtils
 CONSTANTS EmSmallFills,   \* replay generation: how many transport reads of a behaviour take an arbitrary size
           EmSizes,        \* ... the sizes they may take (besides 'everything available')
           EmPong,         \* ... sizes a partial keep-alive reply write may take (besides 'the rest')
-          EmWacc          \* ... sizes a partial user write may take (besides 'the rest')
+          EmWacc,         \* ... sizes a partial user write may take (besides 'the rest')
+          EmBp            \* BOOLEAN: back-pressure behaviours: the relay sends whole binary messages only and the socket only
+                          \* becomes blocked while the connection is busy (bounds the number of equivalent paths)
 
 ClsStream == {"ka", "tiny", "pkt", "bad", "ver9", "verX"}
 ClsSeg == {"ka", "tiny", "pkt", "bad"}
@@ -62,7 +64,9 @@ WaccBudget == (Len(hist') > Len(hist) /\ hist'[Len(hist')].a = "wacc") => hist'[
 SimMin == IF "SIM_MIN" \in DOMAIN IOEnv THEN atoi(IOEnv.SIM_MIN) ELSE 0
 SimShape == SimMin > 0 => /\ (eof' # eof => Len(sent) >= SimMin)
                           /\ (~eof => pc' = pc)
-EmitNext == Next /\ SendFirst /\ FillBudget /\ SizeBudget /\ PongBudget /\ WaccBudget /\ SimShape
+BpShape == EmBp => /\ (Len(net') > Len(net) /\ IsWs => (net'[Len(net')].kind = "binary" /\ wsq' = <<>>))
+                   /\ (blocked' /\ ~blocked => pc \in {"loop", "pong", "write"})
+EmitNext == Next /\ SendFirst /\ FillBudget /\ SizeBudget /\ PongBudget /\ WaccBudget /\ SimShape /\ BpShape
 EmitSpec == Init /\ [][EmitNext]_vars
 
 \* A behaviour is worth replaying when the reader is at rest and everything sent was consumed
